@@ -29,7 +29,7 @@ func implTP(a, sec, ra []byte) *Toks {
 
 func init() {
 	props["C11"] = func(c *Ctx) {
-		c.Res.Rule = "NewTunnelPassword: every password length 0..260 x random contents x salts with both high-bit values and lengths 0..3 x secrets (incl. empty, 64..66 bytes and up to 465) x salts 8000, 8001, ffff, 7fff x authenticators (incl. wrong sizes); every produced attribute must satisfy 1+len <= 253 and decrypt back; TunnelPassword on every ciphertext length 0..300 with both salt high bits and adversarial embedded lengths; rfc2868.TunnelPassword_* and microsoft.MSMPPESendKey_* with crypto/rand.Reader scripted so the salt is known. non-trivial = accepted input or a decoder input that passes the length tests"
+		c.Res.Rule = "NewTunnelPassword: every password length 0..260 x random contents x salts with both high-bit values and lengths 0..3 x secrets (incl. empty, 64..66 bytes and up to 465) x salts 8000, 8001, ffff, 7fff x authenticators (incl. wrong sizes); every produced attribute must satisfy 1+len <= 253 and decrypt back; TunnelPassword on every ciphertext length 0..300 with both salt high bits and adversarial embedded lengths, and values that still carry their tag octet (lengths 3+16k); rfc2868.TunnelPassword_* and microsoft.MSMPPESendKey_* with crypto/rand.Reader scripted so the salt is known. non-trivial = accepted input or a decoder input that passes the length tests"
 		r := c.Rng.Fork()
 		reps := c.N(3, 40)
 		for rep := 0; rep < reps; rep++ {
@@ -81,12 +81,16 @@ func init() {
 		// decoder
 		for rep := 0; rep < c.N(3, 40); rep++ {
 			for n := 0; n <= 300; n++ {
-				if (n-2)%16 != 0 && r.Intn(3) != 0 {
+				tagged := n >= 19 && (n-3)%16 == 0 // the value as it sits in the packet, tag octet still in front
+				if (n-2)%16 != 0 && !tagged && r.Intn(3) != 0 {
 					continue
 				}
 				a := r.Bytes(n)
 				if n > 0 && r.Intn(4) != 0 {
 					a[0] |= 0x80
+				}
+				if tagged && r.Intn(3) != 0 {
+					a[0], a[1] = byte(r.Intn(0x20)), a[1]|0x80 // a plausible tag followed by a valid salt: still not a value of this codec
 				}
 				sec, ra := r.Bytes(1+r.Intn(8)), r.Bytes(16)
 				if r.Intn(20) == 0 {
